@@ -27,6 +27,16 @@ CHECKS["C04"] = ("fvh-blackbox", "model-based stateful property testing: in-proc
          "A: generated insert/re-score/remove/range sequences on the real SkipList, every op followed by the cfg-guarded structural invariant walker (all levels ordered, sub-sequence property, index/chain/length bijection) and by all public queries against an ordered model, each sequence run 4 times because tower heights are random. B: generated sorted-set command histories against the real server and an ordered (score, member) model with dumps after refused commands (refused multi-member ZADD adds nothing) and at the end.",
          "scores compared numerically; trusts the model and the hook's invariant list; finding K02 excluded while it reproduces", "3/C04")
 
+CHECKS["C07"] = ("fvh-blackbox", "model-based stateful property testing (harness-sequenced multi-connection histories) + concurrent invariant workload",
+         "A: generated multi-connection histories (MULTI, queued commands of every family incl. run-time failures, interleaved commands of other connections, EXEC/DISCARD/disconnect, stray EXEC/DISCARD, nested MULTI) sequenced by the harness and compared with the model: +QUEUED and no effect while queueing (observer dump), EXEC slots = model replies back to back, errors in their slot, state cleared. B: bursts of 6 writers running transfer transactions in three send modes and 6 readers taking single-command and read-only-transaction snapshots under schedule-independent invariants (sum conservation, even log length, final state).",
+         "isolation is sampled under real OS schedules, not enumerated; queue-time EXECABORT is not assumed; finding K02 excluded while it reproduces", "3/C07")
+CHECKS["C08"] = ("fvh-blackbox", "enumerated grid (write command x key state x path) + model-based random histories",
+         "every tier runs the full grid of ~70 commands x 8 watched-key states x 4 paths (other connection, same connection, other connection's EXEC, script) plus served blocking pops, deadline expiry before/after a sweeper pass, UNWATCH/DISCARD/EXEC forgetting, and other databases; random WATCH histories on top. The model decides must-abort (state of a watched key changed) and must-execute (no write addressed a watched key); no-op writes are not asserted.",
+         "script-path commands are applied to the model leniently (their replies are C12's business) and end dataset comparison for that case", "3/C08")
+CHECKS["C18"] = ("fvh-blackbox", "model-based stateful property testing with a 16-database model and all-database dumps",
+         "generated multi-connection histories: SELECT (valid/invalid), commands of every family on a shared key pool through direct, MULTI/EXEC (with SELECT inside), EVAL, EVALSHA, script-issued whole-keyspace commands, blocked BLPOP/BRPOP with pushes in other databases, WATCH across databases, FLUSHDB/FLUSHALL, KEYS/SCAN/DBSIZE/RANDOMKEY; replies compared with the model for the selected database at that time and a 16-database canonical dump compared after refusals and at the end.",
+         "script-wrapped commands are restricted to a subset whose script-path effect equals the direct effect; reply content of scripts is not judged here", "3/C18")
+
 checks = []
 for i in ids:
     if i in CHECKS:
